@@ -83,6 +83,7 @@ func runC03(c *core.Ctx) {
 	c.RuleDoc("R03.4", "directories are deleted only when empty")
 	c.RuleDoc("R03.6", "every prefix test between names in keyvalue, mem, mount and the helpers is on a path-element boundary")
 	c.RuleDoc("R03.7", "a mode update keeps the record's type bits")
+	c.RuleDoc("R03.10", "the generic Sub view joins base and name with path.Join, so every entry its root lists can be Stat'ed and opened (= R08.10)")
 	c.RuleDoc("R03.9", "the mount file system does not move an ancestor of a mount point")
 	c.RuleDoc("R03.8", "directory rename: destination record first, children next, source record last")
 	c.RuleDoc("R03.5", "a record is stored under a path only where that path was found absent or not a directory")
@@ -93,13 +94,15 @@ func runC03(c *core.Ctx) {
 			c.Hard("anchor: keyvalue.FS shape (set functions, constructors, save)")
 			continue
 		}
-		r03Creates(c, p, sh)
+		r03Creates(c, p, sh, "R03.1", "R03.5")
 		r03Deletes(c, p, sh)
 		r03Subtree(c, p, sh)
 		boundaryTests(c, p, "R03.6", "keyvalue", "mem", "mount", "")
 		r03KindKept(c, p, "R03.7")
 		r03RenameOrder(c, p, sh)
 		r03MountAncestors(c, p)
+		// R03.10: the generic Sub view maps a listed name to base/name with path.Join — "./name" (base ".") cannot be Stat'ed
+		r08SubViewJoins(c, p, "R03.10")
 	}
 	c.Floor("R03.1", 5)
 	c.Floor("R03.2", 3)
@@ -110,6 +113,7 @@ func runC03(c *core.Ctx) {
 	c.Floor("R03.7", 2)
 	c.Floor("R03.8", 1)
 	c.Floor("R03.9", 1)
+	c.Floor("R03.10", 2)
 }
 
 // pathDirOf: v is path.Dir(x); returns x.
@@ -266,7 +270,7 @@ func isRootFact(at ssa.Instruction, pval ssa.Value, wantRoot bool) bool {
 	return false
 }
 
-func r03Creates(c *core.Ctx, p *load.Program, sh *kvShape) {
+func r03Creates(c *core.Ctx, p *load.Program, sh *kvShape, ruleParent, ruleAbsent string) {
 	for _, fn := range pkgFuncs(p, "keyvalue") {
 		ord := ordinals{}
 		ssax.Instrs(fn, func(ins ssa.Instruction) {
@@ -322,24 +326,24 @@ func r03Creates(c *core.Ctx, p *load.Program, sh *kvShape) {
 			found, isDir := sh.parentIsDirAt(cl, pval)
 			switch {
 			case found && isDir:
-				c.OK("R03.1", key, p.Pos(cl.Pos()), "path.Dir(p) looked up successfully and IsDir() on this path")
+				c.OK(ruleParent, key, p.Pos(cl.Pos()), "path.Dir(p) looked up successfully and IsDir() on this path")
 			case isRootFact(cl, pval, true):
-				c.OK("R03.1", key, p.Pos(cl.Pos()), "p is the root")
+				c.OK(ruleParent, key, p.Pos(cl.Pos()), "p is the root")
 			case sh.ancestorWalk(p, fn, pval):
-				c.OK("R03.1", key, p.Pos(cl.Pos()), "p comes from the ancestor walk (non-directory ancestors answered with ErrNotDir), replayed parent-first")
+				c.OK(ruleParent, key, p.Pos(cl.Pos()), "p comes from the ancestor walk (non-directory ancestors answered with ErrNotDir), replayed parent-first")
 			case isRootOrParentChecked(sh, cl, pval):
-				c.OK("R03.1", key, p.Pos(cl.Pos()), "either p is the root or its parent was looked up and is a directory, on every path")
+				c.OK(ruleParent, key, p.Pos(cl.Pos()), "either p is the root or its parent was looked up and is a directory, on every path")
 			default:
-				c.Bad("R03.1", key, p.Pos(cl.Pos()), fmt.Sprintf("%s creates an entry at %s without a dominating 'parent exists (found=%v) and is a directory (isDir=%v)' check: an entry below a missing path or a regular file is unreachable from the root's listings", fname(fn), vname(pval), found, isDir))
+				c.Bad(ruleParent, key, p.Pos(cl.Pos()), fmt.Sprintf("%s creates an entry at %s without a dominating 'parent exists (found=%v) and is a directory (isDir=%v)' check: an entry below a missing path or a regular file is unreachable from the root's listings", fname(fn), vname(pval), found, isDir))
 			}
 			// R03.5: what is overwritten is not a directory (its children would become entries below a non-directory)
 			switch {
 			case sh.ancestorWalk(p, fn, pval):
-				c.OK("R03.5", key, p.Pos(cl.Pos()), "p was classified missing by the ancestor walk")
+				c.OK(ruleAbsent, key, p.Pos(cl.Pos()), "p was classified missing by the ancestor walk")
 			case absentOrNotDirChecked(sh, cl, pval):
-				c.OK("R03.5", key, p.Pos(cl.Pos()), "on every path p was looked up and found absent or not a directory before the record is stored")
+				c.OK(ruleAbsent, key, p.Pos(cl.Pos()), "on every path p was looked up and found absent or not a directory before the record is stored")
 			default:
-				c.Bad("R03.5", key, p.Pos(cl.Pos()), fmt.Sprintf("%s stores a record at %s on a path on which %s was not looked up and found absent or a non-directory: an existing directory is overwritten and its children become entries below a non-directory, unreachable from any listing", fname(fn), vname(pval), vname(pval)))
+				c.Bad(ruleAbsent, key, p.Pos(cl.Pos()), fmt.Sprintf("%s stores a record at %s on a path on which %s was not looked up and found absent or a non-directory: an existing directory is overwritten and its children become entries below a non-directory, unreachable from any listing", fname(fn), vname(pval), vname(pval)))
 			}
 		})
 	}
